@@ -52,6 +52,7 @@ type Deviations struct {
 	CtlFailFd      int  // if non-zero: only registrations of this descriptor may fail
 	SockoptFail    bool
 	PollCreateFail bool // epoll_create1 / eventfd2 fail with EMFILE
+	DialRetry      bool // connect fails with EADDRNOTAVAIL / getsockname reports local == remote (self-connect)
 	ReadErr        bool // readv fails with ECONNRESET (a reset connection; AF_UNIX cannot produce it)
 }
 
@@ -282,6 +283,11 @@ func Accept(fd int) (int, syscall.Sockaddr, error) {
 //go:norace
 func Connect(fd int, sa syscall.Sockaddr) error {
 	ptf("connect(%d)", fd)
+	if vsched.Active() && led != nil && led.Dev.DialRetry {
+		if vsched.Choose(2, "connect:EADDRNOTAVAIL") == 1 {
+			return syscall.EADDRNOTAVAIL
+		}
+	}
 	err := syscall.Connect(fd, sa)
 	if err == syscall.EINPROGRESS && vsched.Active() {
 		settleConnect(fd)
@@ -345,6 +351,12 @@ func Getpeername(fd int) (syscall.Sockaddr, error) {
 //go:norace
 func Getsockname(fd int) (syscall.Sockaddr, error) {
 	ptf("getsockname(%d)", fd)
+	if vsched.Active() && led != nil && led.Dev.DialRetry {
+		// the kernel picked the destination port as source port: the socket is connected to itself
+		if psa, err := syscall.Getpeername(fd); err == nil && vsched.Choose(2, "getsockname:self-connect") == 1 {
+			return psa, nil
+		}
+	}
 	return syscall.Getsockname(fd)
 }
 
